@@ -154,7 +154,11 @@ def run_on(fb, chk, tag=""):
                         x = g.blocks[x]["term"]["t"]
                         hops += 1
                     ty = (c2.get("gargs") or [""])[0]
-                    if x == b2 and any(o in ty for o in OWNING):
+                    # `T::from_raw_fd` of the std FromRawFd trait takes ownership by contract, also when T is a type
+                    # parameter of a generic helper (the instantiations are EventFd-like owners; a raw fd type does
+                    # not implement FromRawFd)
+                    generic = (c2.get("of_trait") or c2.get("trait") or "").endswith("FromRawFd") and c2.get("trait_decl")
+                    if x == b2 and (any(o in ty for o in OWNING) or generic):
                         direct = True
                 chk.check(direct, "O2", key, "into_raw_fd -> from_raw_fd of an owning type, nothing in between",
                           "%s releases a descriptor with into_raw_fd and does not immediately re-wrap it in an owning type "
